@@ -37,6 +37,8 @@ def cases(run: Run):
             "kind": kind, "start": start.isoformat(), "dt": dt, "steps": steps, "lat": rng.choice([0.0, 89.0, -89.0, 45.0, rng.uniform(-85, 85)]),
             "lon": rng.choice([0.0, 180.0, -179.9, rng.uniform(-180, 180)]), "alt": rng.choice([0.0, 0.1, 2.5, rng.uniform(0, 4)]),
             "join_after": (rng.randint(1, 40) * dt if kind == "late-join" else 0),
+            # another facility a few metres away, built just before this one in the same process (two dishes of one site): each keeps its own place
+            "neighbour_m": rng.choice([0, 0, 2.0, 5.0, 9.0, 15.0, 40.0]),
         })
     return out
 
@@ -69,6 +71,11 @@ def impl_run(c):
     while t < c["join_after"]:
         clock.ticToc()
         t += c["dt"]
+    if c.get("neighbour_m"):
+        dlat = math.degrees(c["neighbour_m"] / 1000.0 / 6378.0) * (-1 if c["lat"] > 80 else 1)
+        other = SensingAgentConfig(**scen.radar_cfg(60000, c["lat"] + dlat, c["lon"], c["alt"]))
+        other_dyn = dynamicsFactory(other, PropagationConfig(), GeopotentialConfig(), PerturbationsConfig(), clock)
+        other_dyn.propagate(ScenarioTime(float(clock.time)), ScenarioTime(float(clock.time) + c["dt"]), other.state.toECI(clock.datetime_epoch))
     cfg = SensingAgentConfig(**scen.radar_cfg(60001, c["lat"], c["lon"], c["alt"]))
     dyn = dynamicsFactory(cfg, PropagationConfig(), GeopotentialConfig(), PerturbationsConfig(), clock)
     state = cfg.state.toECI(clock.datetime_epoch)
